@@ -229,18 +229,21 @@ func execHistory0(h []Op) *smf.SMF {
 
 // WrRec: a history written by the real writer and read back by the real reader (C01, C03).
 type WrRec struct {
-	Ev    string   `json:"ev"`
-	ID    int      `json:"id"`
-	Judge string   `json:"judge"`
-	Log   bool     `json:"log"` // a Logger is configured (SMF.Logger for writes, smf.Log for reads): must not change any result
-	Hist  []Op     `json:"hist"`
-	Bytes hx.B     `json:"bytes"`
-	Size  int64    `json:"size"`
-	Werr  string   `json:"werr"`
-	Again bool     `json:"again"`
-	File  string   `json:"file"` // WriteFile over an existing LONGER file: "same" (file content = WriteTo bytes), "differs", or the error text
-	Read  R        `json:"read"`
-	Feat  []string `json:"feat"`
+	Ev    string `json:"ev"`
+	ID    int    `json:"id"`
+	Judge string `json:"judge"`
+	Log   bool   `json:"log"` // a Logger is configured (SMF.Logger for writes, smf.Log for reads): must not change any result
+	Hist  []Op   `json:"hist"`
+	Bytes hx.B   `json:"bytes"`
+	Size  int64  `json:"size"`
+	Werr  string `json:"werr"`
+	Again bool   `json:"again"`
+	// an EARLIER write of the same history, in the same process, that failed after this many bytes (-1: none): the measured
+	// write must not be affected by what an earlier, failed write left behind
+	PriorFault int      `json:"priorfault"`
+	File       string   `json:"file"` // WriteFile over an existing LONGER file: "same" (file content = WriteTo bytes), "differs", or the error text
+	Read       R        `json:"read"`
+	Feat       []string `json:"feat"`
 }
 
 func runWr(rec *WrRec) {
@@ -249,6 +252,9 @@ func runWr(rec *WrRec) {
 	var n int64
 	var err error
 	var s *smf.SMF
+	if rec.PriorFault >= 0 {
+		hx.Catch(func() { execHistory(rec.Hist).WriteTo(&budgetWriter{budget: rec.PriorFault, mode: "short"}) })
+	}
 	p := hx.Catch(func() {
 		s = execHistory(rec.Hist)
 		n, err = s.WriteTo(&buf)
@@ -261,8 +267,9 @@ func runWr(rec *WrRec) {
 	}
 	rec.Again = false
 	if rec.Werr == "" {
-		p2 := hx.Catch(func() { _, err = s.WriteTo(&buf2) })
-		rec.Again = p2 == "" && err == nil && bytes.Equal(buf.Bytes(), buf2.Bytes())
+		var n2 int64
+		p2 := hx.Catch(func() { n2, err = s.WriteTo(&buf2) })
+		rec.Again = p2 == "" && err == nil && bytes.Equal(buf.Bytes(), buf2.Bytes()) && n2 == n
 	}
 	rec.File = "same"
 	if rec.Werr == "" && rec.ID%5 == 0 { // the file-level entry point, onto a path that already holds a longer file
@@ -302,4 +309,45 @@ type RdRec struct {
 func runRd(rec *RdRec) {
 	rec.Ev = "rd"
 	rec.Read, _, _ = readBytes(rec.Bytes)
+}
+
+// tracksProbe reads the bytes through the track-level entry points (ReadTracksFrom on memory, ReadTracks on a file), visits
+// every event with Do and reports how each ended: "ok", "error", "panic: ..", "timeout".
+func tracksProbe(data []byte) (mem, file string) {
+	probe := func(open func() *smf.TracksReader) string {
+		ch := make(chan string, 1)
+		go func() {
+			var err error
+			p := hx.Catch(func() {
+				tr := open()
+				tr.Do(func(smf.TrackEvent) {})
+				err = tr.Error()
+			})
+			switch {
+			case p != "":
+				ch <- "panic: " + p
+			case err != nil:
+				ch <- "error"
+			default:
+				ch <- "ok"
+			}
+		}()
+		select {
+		case x := <-ch:
+			return x
+		case <-time.After(10 * time.Second):
+			atomic.AddInt32(&hungReads, 1)
+			return "timeout"
+		}
+	}
+	mem = probe(func() *smf.TracksReader { return smf.ReadTracksFrom(bytes.NewReader(data)) })
+	file = "n/a"
+	if dir, derr := os.MkdirTemp("", "verif_tp"); derr == nil {
+		pth := filepath.Join(dir, "x.mid")
+		if os.WriteFile(pth, data, 0o644) == nil {
+			file = probe(func() *smf.TracksReader { return smf.ReadTracks(pth) })
+		}
+		os.RemoveAll(dir)
+	}
+	return
 }
